@@ -175,8 +175,11 @@ UI_HEADERS = [b"HSM:UI:5.4", b"HSM:UI:2.0", b"HSM:UI:6.0", b"HSM:SIGNER:5.4", b"
 SIGNER_HEADERS = [b"POWHSM:5.4::", b"POWHSM:5.9::", b"POWHSM:4.0::", b"POWHSM:5.4:", b"HSM:SIGNER:5.4", b"HSM:UI:5.4", b"XPOWHSM:5.4::"]
 
 
+UD_DIGIT = b"7" + pat(31, 1)          # a UD value whose first byte is an ASCII digit: nothing separates it from the header
+
+
 def ui_message(header, key, ud=None, shash=None, it=b"\x01\x02"):
-    return header + (ud or pat(32, 1)) + key + (shash or pat(32, 2)) + it
+    return header + (ud or UD_DIGIT) + key + (shash or pat(32, 2)) + it
 
 
 def powhsm_body(keys_hash, delta=0):
